@@ -20,7 +20,7 @@ LEAVES = ['x', 'y', 'pixel', 'world', 'derived', 'const']
 def views_for(shape):
     nd = len(shape)
     if nd == 1:
-        return [None, (slice(1, None),), (slice(0, None, 2),), (0,), np.array([True, False, True][:shape[0]])]
+        return [None, (slice(1, None),), (slice(0, None, 2),), (0,), np.arange(shape[0]) % 2 == 0]
     vs = [None, Ellipsis, (slice(1, None),), (slice(None), slice(1, None)), (slice(None), slice(0, None, 2)), (0,), (slice(None), -1),
           (1, 2 if shape[1] > 2 else 1), (slice(-1, None), slice(-2, None)),
           tuple(np.array([0, n - 1]) for n in shape)]
